@@ -29,7 +29,7 @@ ASSUMPTIONS = ['antipodal quaternion pairs (1 + dot < 1e-9) are excluded unless 
 MIN_EVALS = {'sample': {'quick': 20000, 'thorough': 300000}, 'range': {'quick': 1500, 'thorough': 20000},
              'routes': {'quick': 600, 'thorough': 8000}, 'vector_s': {'quick': 200, 'thorough': 3000}}
 SVALS = [0.0, 1e-12, 1e-9, 1e-6, 1e-3, 0.25, 0.5, 0.75, 1 - 1e-3, 1 - 1e-6, 1 - 1e-9, 1 - 1e-12, 1.0]
-BAD_S = [-1e-9, 1 + 1e-9, -0.5, 1.5, -1e-3, 2.0, 2, 3, 7, -1, 10]      # floats and plain integers (an integer count is not a coefficient)
+BAD_S = [-1e-9, 1 + 1e-9, -0.5, 1.5, -1e-3, 2.0, 2, 3, 7, -1, 10, -1e-12, 1 + 1e-12, -1e-15, 1.0000000000000002, -5e-324, -1e-300]      # floats and plain integers (an integer count is not a coefficient)
 
 
 def S():
@@ -397,6 +397,8 @@ def run(ctx):
         se = rng.random() < 0.5
         T0 = ref.rt2tr(R0, gen.transl(rng, hi=1e3)) if se else R0
         T1 = ref.rt2tr(R1, gen.transl(rng, hi=1e3)) if se else R1
+        if se and rng.random() < 0.12:
+            T1[:3, 3] = T0[:3, 3] * (1 + gen.sign(rng) * gen.logu(rng, 1e-9, 1e-4)) + rng.normal(size=3) * gen.logu(rng, 1e-9, 1e-5)
         if rng.random() < 0.3:       # without start the end pose itself is the relative motion
             a = gen.unit_axis(rng)
             R1 = ref.rot(a, rel_angle(rng))
@@ -445,11 +447,16 @@ def run(ctx):
         se = rng.random() < 0.5
         T0 = gen.se2(rng, hi=1e3) if se else gen.so2(rng)
         T1 = gen.se2(rng, hi=1e3) if se else gen.so2(rng)
+        if se and rng.random() < 0.2:
+            # positions that nearly coincide (a slow approach, turning almost on the spot): 1e-9 .. 1e-4 of their magnitude apart
+            T1[:2, 2] = T0[:2, 2] * (1 + gen.sign(rng) * gen.logu(rng, 1e-9, 1e-4)) + rng.normal(size=2) * gen.logu(rng, 1e-9, 1e-5)
         drive(RUNNERS, ctx, '2d', dict(api=['base.trinterp2', 'pose.interp'][rng.integers(2)], T0=T0, T1=T1,
                                        with_start=bool(rng.random() < 0.7), svals=svals(rng)))
     for _ in range(ctx.scale(300, 6000)):
         R0, R1 = pair3(rng)
         k = int(rng.integers(2, 6))
+        if rng.random() < 0.05:
+            k = [100, 300][rng.integers(2)]        # a long vector of s (a finely sampled trajectory)
         sv = sorted(float(x) for x in rng.random(k))
         r_ = rng.random()
         if r_ < 0.2:        # there and back, dwelling at the ends: repeated values, not monotonic
